@@ -328,3 +328,37 @@ func HC16Chain() {
 	}
 	vReach("end")
 }
+
+// HC04Pool2: the pooled-state obligation as a two-step history. Step 0: the pool holds an arbitrary
+// parser state (symbolic fields; key-path stack of height 0, 2 or 129). Step 1: a real Parse of one of
+// a few first inputs (complete, cut inside an array / object / string, deep, empty) runs on it and
+// hands it back - so what step 2 receives is a state that a real Parse *released*, whatever
+// discipline (reset on entry, reset on release) the code follows. Step 2: Parse(q, raw) on arbitrary
+// bytes must answer exactly what a fresh parser answers.
+func HC04Pool2() {
+	maxN := vChoice("maxlen", 32)
+	raw := vBytes("raw", 0, maxN)
+	q := [4]string{QueryNone, QueryGeo, QueryHAR, QueryGLTF}[vChoice("query", 4)]
+	a1, a2, a3, a4 := Parse(q, raw) // fresh parser (empty pool)
+	parserPool.Get()                // drop what the reference run released
+	dirty := &parserState{maxRecursion: maxRecursion}
+	dirty.ib = vInt("dirty.ib", 0, 1<<40)
+	dirty.firstToken = vInt("dirty.firstToken", 0, 1024)
+	dirty.querySatisfied = vBool("dirty.querySatisfied")
+	dirty.failed = vBool("dirty.failed")
+	h := [3]int{0, 2, 129}[vChoice("dirty.height", 3)]
+	backing := make([][]byte, h, h+1)
+	for i := 0; i < h && i < 3; i++ {
+		backing[i] = vBytes("dirty.key", 0, 2)
+	}
+	dirty.currPath = backing
+	parserPool.Put(dirty)
+	firsts := []string{"[", `[1,2]`, `{"log":{"version":"1","a":[{"b":"c`, `x`}
+	Parse(q, []byte(firsts[vChoice("first", len(firsts))]))
+	b1, b2, b3, b4 := Parse(q, raw)
+	vAssert(a1 == b1, "same-parsed")
+	vAssert(a2 == b2, "same-inspected")
+	vAssert(a3 == b3, "same-first-token")
+	vAssert(a4 == b4, "same-query-satisfied")
+	vReach("end")
+}
